@@ -23,7 +23,9 @@ func checkC09(p *load.Program, r *kit.Report) {
 		func(o *kit.Obligation) bool { return strings.HasPrefix(o.Construct, "loadHistoricalHashHeights") }, "COVER-ALL")
 	importRules(p, r, "C11", "a header restored from storage is found by hash, once it is pruned from memory, only through the height map: load and migrate must register what they install", 3, nil, "RESTORE-REGISTERS")
 	importRules(p, r, "C10", "range and height queries are served from the header files for what left memory: clean must have written the main branch before prune drops it", 3,
-		func(o *kit.Obligation) bool { return strings.HasPrefix(o.Construct, "clean/") || strings.HasPrefix(o.Construct, "prune/") }, "ORDER")
+		func(o *kit.Obligation) bool {
+			return strings.HasPrefix(o.Construct, "clean/") || strings.HasPrefix(o.Construct, "prune/")
+		}, "ORDER")
 	importRules(p, r, "C08", "unknown hashes are reported unknown: a header that ProcessHeader refuses must leave no entry in the hash→height map, or the lookups answer for a header that is in no branch", 12, nil, "NO-EFFECT-BEFORE-ERROR")
 	r.NotDecided = "behaviour after particular consolidation/prune/reload histories (which branch object a header ends up in); HashHeight answering with the old height for a header that was trimmed (the long-lived map never shrinks; the most-work flag is decided by comparison, FLAG-RULE); equality of memory- and storage-served ranges as values."
 	r.Rule("HEIGHT-LABEL", "every hash→height label stored into Branch.heightsMap / Repository.heights equals the positional height parentHeight+offset+index of the labelled header (linear arithmetic over SSA; counters by lockstep induction; constructors summarised)", 11)
